@@ -100,13 +100,18 @@ mod data {
 pub struct LookUps;
 include!("attack_lookups_extracted.rs"); // impl LookUps { compute_bishop_attacks, compute_rook_attacks, compute_queen_attacks: verbatim }
 
-static mut MAGIC_BITS: [[u32; 2]; 2] = [[0; 2]; 2];
+static mut MAGIC_SEL: [u8; 4] = [0; 4];
+const MAGIC_CHOICES: [u64; 4] = [0x0080_0010_2040_0080, 0x0000_0000_0000_0001, 0x8000_0000_0000_0001, 0x0101_0101_0101_0101];
 
 fn expected(which: usize, sq: u8, occ: u64) -> u64 {
-    let (mask, width, [k, j]) = unsafe { (bb(data::MASK_CELLS[which][sq as usize]), data::WIDTH_CELLS[which][sq as usize], MAGIC_BITS[which]) };
-    // (occ & mask) * (2^k | 2^j) mod 2^64, written without a multiplier
+    let (mask, width, sel) = unsafe { (bb(data::MASK_CELLS[which][sq as usize]), data::WIDTH_CELLS[which][sq as usize], MAGIC_SEL[which]) };
     let x = occ & mask;
-    let product = if k == j { x << k } else { (x << k).wrapping_add(x << j) };
+    let product = match sel {
+        0 => x.wrapping_mul(0x0080_0010_2040_0080),
+        1 => x,
+        2 => x.wrapping_mul(0x8000_0000_0000_0001),
+        _ => x.wrapping_mul(0x0101_0101_0101_0101),
+    };
     let key = product >> (64 - width as u32);
     data::table(which, sq, key as usize)
 }
@@ -123,13 +128,13 @@ fn c09_lookups_read_the_masked_magic_key() {
         while w < 2 {
             // only the cells of square s are read; the other cells stay zero (the look-ups must not read them)
             data::MASK_CELLS[w][i as usize] = BitBoard::new(kani::any());
-            // magic multipliers with one or two bits set (symbolic positions): enough to tell every table cell and every
-            // arithmetic operation apart, and the 64-bit product stays a sum of two shifts for the solver (two fully symbolic
-            // 64-bit multipliers compared for equality did not finish in 10 minutes)
-            let (k, j): (u32, u32) = (kani::any(), kani::any());
-            kani::assume(k < 64 && j < 64);
-            data::MAGIC_CELLS[w][i as usize] = BitBoard::new((1u64 << k) | (1u64 << j));
-            MAGIC_BITS[w] = [k, j];
+            // the magic multiplier of square s is one of four constants, chosen symbolically and independently for rook and
+            // bishop: enough to tell every table cell and every arithmetic operation apart, while the solver multiplies by
+            // constants (two fully symbolic 64-bit multipliers compared for equality did not finish in 20 minutes)
+            let sel: u8 = kani::any();
+            kani::assume(sel < 4);
+            data::MAGIC_CELLS[w][i as usize] = BitBoard::new(MAGIC_CHOICES[sel as usize]);
+            MAGIC_SEL[w] = sel;
             let width: u8 = kani::any();
             kani::assume(width >= 1 && width <= 12);
             data::WIDTH_CELLS[w][i as usize] = width;
